@@ -6,7 +6,7 @@ from types import SimpleNamespace
 import numpy as np
 
 from mc import enum, est, refs, seqdiff
-from mc.common import HarnessError, Stats, pmap, safe, shards
+from mc.common import HarnessError, Stats, pmap, safe, shards, isolated
 
 PROPERTY = 'C03'
 LEVEL = 'exploration'
@@ -153,7 +153,13 @@ def _seqdiff(_):
 
 
 def run(ctx):
-    ctx.stats.merge(_seqdiff(None))
+    tag, val = isolated(_seqdiff, None, timeout=600)     # calls the compiled estimator with a ratio < 1: in a child that may die
+    if tag == 'ok':
+        ctx.stats.merge(val)
+    elif tag == 'harness':
+        raise HarnessError(val)
+    else:
+        ctx.stats.violation({'kind': 'seqdiff', 'seq': []}, f'the process running numba_mi with a sampling ratio < 1 ended abnormally ({tag} {val})', {'kind': 'crash'})
     nmax = 8 if ctx.thorough else 6
     jobs = []
     for n in range(1, nmax + 1):
